@@ -85,6 +85,7 @@ class DB:
         self.inst = collections.defaultdict(dict)   # key -> {inst name -> Fn}
         self.classes = {}
         self.allfns = {}
+        self.consts = {}
         self.tus = []
         for p in sorted(files):
             try:
@@ -108,6 +109,12 @@ class DB:
                 self.classes.setdefault((c['inst'], c.get('loc')), c)
             for a in d['all']:
                 self.allfns[a['key']] = a['name']
+            for k_, v_ in (d.get('consts') or {}).items():
+                # values of namespace-scope / static member integer constants referenced in paths (global:<name>)
+                if k_ in self.consts and self.consts[k_] != v_:
+                    self.consts[k_] = None
+                else:
+                    self.consts.setdefault(k_, v_)
         self.byname = collections.defaultdict(list)    # normalised name -> [key]
         for k, m in self.inst.items():
             f = next(iter(m.values()))
@@ -319,6 +326,119 @@ STD_IMMEDIATE = {'std::visit': 0, 'std::find_if': 2, 'std::apply': 0, 'std::cond
                  'std::for_each': 2, 'std::condition_variable::wait_until': 2, 'std::condition_variable::wait_for': 2}
 
 
+def split_select_(p):
+    """'(C ? A : B)' -> (C, A, B) or None"""
+    if not (p and p.startswith('(') and p.endswith(')')):
+        return None
+    body = p[1:-1]; depth = 0; q = c = None
+    for i, ch in enumerate(body):
+        if ch == '(':
+            depth += 1
+        elif ch == ')':
+            depth -= 1
+        elif depth == 0 and body[i:i + 3] == ' ? ' and q is None:
+            q = i
+        elif depth == 0 and body[i:i + 3] == ' : ' and q is not None and c is None:
+            c = i
+    if q is None or c is None:
+        return None
+    return body[:q], body[q + 3:c], body[c + 3:]
+
+
+def switch_value(sq, cev, d):
+    """(const, text) of the value a switch at depth d tests when it is the result of a helper expanded just before on this path"""
+    if cev is None:
+        return None
+    lli = next((n_ for n_ in range(len(sq) - 1, -1, -1) if sq[n_].k == 'leave' and sq[n_].get('depth') == d and sq[n_].ev.id == cev), None)
+    if lli is None:
+        return None
+    if sq[lli].get('ret') is not None:
+        return (sq[lli]['ret'], None)
+    rv = next((x for x in reversed(sq[:lli]) if x.k == 'return' and x.get('depth') == d + 1), None)
+    if rv is None or not rv.get('path'):
+        return None
+    e_ = next((n_ for n_ in range(lli - 1, -1, -1) if sq[n_].k == 'enter' and sq[n_].get('depth') == d and sq[n_].ev.id == cev), 0)
+    p = rv['path']
+    for _ in range(4):
+        sp = split_select_(p)
+        if not sp:
+            break
+        br = next((x for x in reversed(sq[e_:lli]) if x.k == 'branch' and x.get('depth') == d + 1 and (x.get('opath') == sp[0] or x.get('path') == sp[0])), None)
+        if br is None:
+            return None
+        p = sp[1] if br.val else sp[2]
+    if re.fullmatch(r'decl:[\w:<>, ]+', p):
+        return (None, p)
+    return None
+
+
+def pos(tr, it):
+    """index of this very item in the trace (list.index compares by content and finds an equal item of an earlier loop iteration)"""
+    for i, x in enumerate(tr):
+        if x is it:
+            return i
+    return tr.index(it)
+
+
+def split_logic(p):
+    """'(X || Y)' / '(X && Y)' -> (X, op, Y) split at the last top-level operator, else None"""
+    if not (p and p.startswith('(') and p.endswith(')')):
+        return None
+    depth = 0; last = None
+    body = p[1:-1]
+    for i, ch in enumerate(body):
+        if ch in '([{<' and not (ch == '<' and (body[i - 1:i] == ' ' or body[i + 1:i + 2] in (' ', '='))):
+            depth += 1
+        elif ch in ')]}>' and not (ch == '>' and (body[i - 1:i] in (' ', '-') or body[i + 1:i + 2] in (' ', '='))):
+            depth -= 1
+            if depth < 0:
+                return None
+        elif depth == 0 and body[i:i + 4] in (' || ', ' && '):
+            last = i
+    if last is None or depth != 0:
+        return None
+    return body[:last], body[last + 1:last + 3], body[last + 4:]
+
+
+def eval_logic(p, known):
+    """value of a boolean expression given the outcomes of the branches taken: ('const', bool) | ('expr', path, negated) | None"""
+    neg = False
+    while p.startswith('!(') and p.endswith(')') and split_logic(p[1:]) is not None:
+        p = p[1:]; neg = not neg
+    if p in known:
+        return ('const', known[p] != neg)
+    if p.startswith('(') and p.endswith(')') and p[1:-1] in known:
+        return ('const', known[p[1:-1]] != neg)
+    sp = split_logic(p)
+    if sp is None:
+        q = p
+        while q.startswith('!(') and q.endswith(')') and q.count('(') == q.count(')'):
+            q = q[2:-1]; neg = not neg
+        if q in known:
+            return ('const', known[q] != neg)
+        return ('expr', q, neg)
+    x, o, y = sp
+    rx = eval_logic(x, known)
+    if rx is None or rx[0] != 'const':
+        return None
+    if (o == '||') == rx[1]:
+        return ('const', rx[1] != neg)
+    ry = eval_logic(y, known)
+    if ry is None:
+        return None
+    if ry[0] == 'const':
+        return ('const', ry[1] != neg)
+    return ('expr', ry[1], ry[2] != neg)
+
+
+def ev_form(x):
+    if x.k == 'call':
+        return 'call(%s)' % norm(x.get('callee') or '')
+    if x.k == 'cmp':
+        return '(%s %s %s)' % (x.get('lhs'), x.get('op'), x.get('rhs'))
+    return x.get('path')
+
+
 class Tracer:
     """enumerates flattened entry->exit event traces of a function instance; calls to library
     functions accepted by inline_filter are expanded in place (bounded depth, no recursion)."""
@@ -435,7 +555,7 @@ class Tracer:
                         val = (i == 0)
                         if cond.get('neg'):
                             val = not val
-                        cpath = cond.get('path'); cev = cond.get('ev')
+                        cpath = cond.get('path'); cev = cond.get('ev'); oval = val
                         # a branch on a bool local that is defined once is a branch on its initialiser (bool ok = cas(...); if (ok) ...)
                         m2_ = re.fullmatch(r'\(local:(\w+) (==|!=) (false|true|0|1)\)', cpath or '')
                         if m2_ and m2_.group(1) in bl:
@@ -451,20 +571,69 @@ class Tracer:
                             cpath = ipath; cev = iev if iev is not None else cev
                             if ineg:
                                 val = not val
-                        br = Item(k='branch', cond_ev=cev, val=val, path=subst_path(cpath, full), opath=cond.get('path'),
+                        br = Item(k='branch', cond_ev=cev, val=val, oval=oval, path=subst_path(cpath, full), opath=cond.get('path'),
                                   fn=f['key'], fname=f['nname'], depth=d, term=cond.get('term'), loc=cond.get('loc'), block=bid)
-                        lastleave = next((x for x in reversed(sq) if x.k == 'leave' and x.get('depth') == d and x.ev.id == cev), None) if cev is not None else None
-                        if lastleave is not None and lastleave.ret is not None and bool(lastleave.ret) != val and not any(x.k in ('enter',) and x.get('depth') == d and x.ev.id == cev for x in sq[sq.index(lastleave) + 1:]):
+                        if br['path'] != subst_path(cond.get('path'), full) and split_logic(br['path'] or ''):
+                            # bool ntf = a || b; ... if (ntf): the operands but the last were branched on where the local was initialised: on this
+                            # path the local is a constant or the last operand evaluated
+                            known = {}
+                            for x in sq:
+                                if x.k == 'branch' and x.get('depth') == d and x.get('fn') == f['key']:
+                                    known[x.path] = bool(x.val)
+                            res = eval_logic(br['path'], known)
+                            if res is not None and res[0] == 'const':
+                                if res[1] != br['val']:
+                                    continue      # infeasible: the local has the other value on this path
+                            elif res is not None:
+                                tgt = next((x for x in reversed(sq) if x.get('depth') == d and x.k in ('call', 'cmp', 'read') and x.get('fn') == f['key'] and ev_form(x) == res[1]), None)
+                                if tgt is not None:
+                                    br['path'] = res[1]; br['cond_ev'] = tgt.get('id'); cev = tgt.get('id')
+                                    if res[2]:
+                                        br['val'] = not br['val']
+                        lli = next((n_ for n_ in range(len(sq) - 1, -1, -1) if sq[n_].k == 'leave' and sq[n_].get('depth') == d and sq[n_].ev.id == cev), None) if cev is not None else None
+                        lastleave = sq[lli] if lli is not None else None
+                        if lastleave is not None and lastleave.ret is not None and bool(lastleave.ret) != val and not any(x.k in ('enter',) and x.get('depth') == d and x.ev.id == cev for x in sq[lli + 1:]):
                             continue      # infeasible: the inlined callee returned a constant
                         if lastleave is not None and lastleave.ret is None:
                             # a branch on the result of an expanded helper is a branch on the expression the helper returned on this path
-                            k_ = sq.index(lastleave)
+                            k_ = lli
                             rv = next((x for x in reversed(sq[:k_]) if x.k == 'return' and x.get('depth') == d + 1), None)
                             if rv is not None and rv.get('path') and rv.get('ret_ev') is not None:
                                 br['path'] = rv['path']; br['rcond_ev'] = rv['ret_ev']; br['rcond_fn'] = rv.get('fn'); br['rcond_depth'] = d + 1
+                                # return !x;  the returned event is x (the extractor peels the negation): read the branch as a branch on x
+                                while br['path'].startswith('!(') and br['path'].endswith(')') and br['path'].count('(') == br['path'].count(')'):
+                                    br['path'] = br['path'][2:-1]; br['val'] = not br['val']
+                            elif rv is not None and rv.get('path') and split_logic(rv['path']):
+                                # return a || b;  on this path the operands but the last were branched on inside the helper: the result is a constant
+                                # or the last operand evaluated
+                                e_ = next((n_ for n_ in range(k_ - 1, -1, -1) if sq[n_].k == 'enter' and sq[n_].get('depth') == d and sq[n_].ev.id == cev), 0)
+                                known = {x.path: bool(x.val) for x in sq[e_:k_] if x.k == 'branch' and x.get('depth') == d + 1}
+                                res = eval_logic(rv['path'], known)
+                                if res is not None and res[0] == 'const':
+                                    if res[1] != val:
+                                        continue      # infeasible: the helper returned the other constant on this path
+                                elif res is not None:
+                                    tgt = next((x for x in reversed(sq[e_:k_]) if x.get('depth') == d + 1 and x.k in ('call', 'cmp', 'read') and ev_form(x) == res[1]), None)
+                                    br['path'] = res[1]
+                                    if res[2]:
+                                        br['val'] = not br['val']
+                                    if tgt is not None:
+                                        br['rcond_ev'] = tgt.get('id'); br['rcond_fn'] = tgt.get('fn'); br['rcond_depth'] = d + 1
                         item = [br]
                     elif cond is not None and len(succ) > 2:
                         lab = blocks[s].get('label') or {}
+                        # switch (classify()): the expanded helper returned a known enumerator on this path -> only the matching label is feasible
+                        rvv = switch_value(sq, cond.get('ev'), d)
+                        if rvv is not None:
+                            labs = [blocks[x].get('label') or {} for x in succ if x >= 0]
+                            def matches(l_):
+                                return l_.get('kind') == 'case' and ((rvv[0] is not None and l_.get('const') == rvv[0]) or (rvv[1] is not None and l_.get('text') == rvv[1]))
+                            if any(matches(l_) for l_ in labs):
+                                if not matches(lab):
+                                    continue
+                            elif lab.get('kind') == 'case' and ((rvv[0] is not None and all(l_.get('const') is not None for l_ in labs if l_.get('kind') == 'case')) or
+                                                                (rvv[1] is not None and all((l_.get('text') or '').startswith('decl:') for l_ in labs if l_.get('kind') == 'case'))):
+                                continue      # no case label carries the value (a constant / a named enumerator): only default (or the exit) is feasible
                         item = [Item(k='switch', path=subst_path(cond.get('path'), full), label=lab, fn=f['key'], depth=d, loc=cond.get('loc'), block=bid)]
                     walk(s, c, sq + item)
 
@@ -503,10 +672,12 @@ class Tracer:
         callee = self.db.resolve(caller, key, ee.get('callee_inst'))
         if callee is None:
             return None
+        if ee.k == 'construct' and callee.get('lambda'):
+            return None       # copying a closure object (its implicit constructor shares the closure's location) runs no body
         if not self.inline_filter(caller, ee, callee):
             # a closure handed down to an expanded helper and called there (resolve_claimed([&](future *f) { f->set(...); })) is code of the
             # function that defined it: expand it when that function is on the expansion stack and helpers are expanded at all
-            if not (self.closures_on_stack and callee.get('lambda') and callee.get('parent_key') and d > 0 and any(fr[0] == callee['parent_key'] for fr in stack)):
+            if not (self.closures_on_stack and callee.get('lambda') and callee.get('parent_key') and d > 0 and any(fr[0] in (callee['parent_key'], callee.get('encl_key') or callee['parent_key']) for fr in stack)):
                 return None
         if callee.get('lambda'):
             env = self.lambda_env(callee, stack, ee.get('args') or [])
@@ -526,7 +697,7 @@ class Tracer:
     def lambda_env(self, lf, stack, args):
         env = {}
         for fr in reversed(stack):
-            if fr[0] == lf.get('parent_key'):
+            if fr[0] == lf.get('parent_key') or (lf.get('encl_key') and fr[0] == lf.get('encl_key')):
                 penv = fr[1]
                 names = set()
                 for e in lf.events():
@@ -541,9 +712,12 @@ class Tracer:
                         names.update(re.findall(r'capture:\w+', b['cond']['path']))
                 pf = self.db.get(fr[0])
                 pparams = {p['name'] for p in pf['params']} if pf else set()
+                plocals = {e.get('var') for e in pf.events() if e.k == 'decl'} if pf is not None and pf.get('lambda') else None
                 for n in names:
                     v = n.split(':')[1]
                     cand = 'param:' + v if v in pparams else 'local:' + v
+                    if plocals is not None and v not in pparams and v not in plocals and ('capture:' + v) in penv:
+                        cand = 'capture:' + v       # the enclosing closure captured it itself
                     env[n] = penv.get(cand, cand)
                 env['this'] = penv.get('this', 'this')
                 break
